@@ -59,7 +59,8 @@ class ModbusBinaryFramer(ModbusFramer):
     # Private Helper Functions
     # ----------------------------------------------------------------------- #
     def decode_data(self, data):
-        if len(data) > self._hsize:
+        # start byte, unit id and function code have to be there
+        if len(data) > self._hsize + 1:
             uid = struct.unpack('>B', data[1:2])[0]
             fcode = struct.unpack('>B', data[2:3])[0]
             return dict(unit=uid, fcode=fcode)
